@@ -31,6 +31,10 @@ func checkC02(c *Ctx) {
 	c02Pairing(c)
 	c02Determinism(c)
 	c02SliceBounds(c)
+	for _, p := range []string{"internal/core/adt", "internal/core/compile", "cue/parser"} {
+		c.checkCounterBalance("frames.counter-balanced", p, nil)
+	}
+	c.expect("frames.counter-balanced", 10)
 	// concurrent/fresh-context runs must agree on label identity: the
 	// process-wide interning table inserts atomically (re-check under the
 	// write lock). Shared with C19.
